@@ -111,6 +111,8 @@ def _record(self, timeout, run, box):
     exact = hasattr(searcher, '_strings')
     pats = rec.annot['pats'] if rec.annot is not None else None
     W = self.searchwindowsize or 0
+    if rec.annot is not None and 'W' in rec.annot:
+        W = rec.annot['W']          # the window the caller asked for (per call, or the object's default for -1)
     rec.emit(e='call', pats=pats, W=W, tmo=tmo_class(timeout), exact=exact, mode='sync', ready=0)
     nreads0 = len(sp.reads)
     raised = ''
